@@ -163,7 +163,11 @@ def fix(
         if total_errors > 0:
             should_fix = False
     if should_fix:
-        sql = result.paths[0].files[0].fix_string()[0]
+        linted_file = result.paths[0].files[0]
+        # NOTE: If templating or parsing failed fatally there is nothing to
+        # fix (and `fix_string` would assert): return the input unchanged.
+        if linted_file.templated_file and linted_file.tree:
+            sql = linted_file.fix_string()[0]
     return sql
 
 
